@@ -116,6 +116,7 @@ func runReplay(job *Job) Result {
 		driftOut = bufio.NewWriter(df)
 		defer driftOut.Flush()
 	}
+	dumpAll, _ := job.Extra["dump_all"].(bool)
 	sc := bufio.NewScanner(f)
 	sc.Buffer(make([]byte, 1<<20), 1<<26)
 	var nrec, drift, declBad int64
@@ -150,7 +151,13 @@ func runReplay(job *Job) Result {
 					res.Violations = append(res.Violations, Violation{Prop: r.Prop, What: "real result differs from the intended result",
 						Text: r.Fn + string(r.Args), Detail: bad + "\nreal: " + got, Sig: "decl:" + r.Fn})
 				}
-			} else if bad != "" {
+			} else if bad != "" || dumpAll {
+				if bad == "" || dumpAll {
+					rr, _ := json.Marshal(map[string]interface{}{"fn": r.Fn, "args": r.Args, "res": json.RawMessage(got)})
+					driftOut.Write(rr)
+					driftOut.WriteByte('\n')
+					continue
+				}
 				drift++
 				if len(driftSamples) < 10 {
 					driftSamples = append(driftSamples, fmt.Sprintf("%s%s: model %s | code %s", r.Fn, r.Args, canon(r.Res), canon([]byte(got))))
